@@ -38,7 +38,7 @@ def run(ctx):
     rule_same_text(ctx, facts, "C09-b")
     # (c)
     _run_as(c13, _Only(ctx, "C09-c", ("prefix-template", "prefix-key", "separators", "kv-count-complete", "kind-new", "anchor-after-target", "paren-anchor-only-without-target",
-                                      "G10|", "G14|", "inner-handles", "post-target-span", "target-flag", "shift-span", "shift-paren", "key-constant")), ctx)
+                                      "G10|", "G14|", "G6|", "G15|", "G9|", "inner-handles", "post-target-span", "target-flag", "shift-span", "shift-paren", "key-constant")), ctx)
     from .finder import rule_statement_local_state
     rule_statement_local_state(ctx, facts, "C09-c")
     f = facts.one(r"rust_log_ref_finder::find$")
